@@ -291,8 +291,12 @@ func c18Case(t *rapid.T) (kind string, n int, scripts [][]c18Op, concurrent bool
 				op.Kind = rapid.SampledFrom([]string{"EVENT", "EVENT", "EVENT", "EVENT", "EVENT", "REQ", "CLOSE", "SRV-EVENT", "SRV-OTHER", "SRV-OTHER", "RESTART"}).Draw(t, lab+"op")
 				op.ID = rapid.SampledFrom(evIDs).Draw(t, lab+"id")
 			case "sendunique":
-				op.Kind = rapid.SampledFrom([]string{"SRV-EVENT", "SRV-EVENT", "SRV-EVENT", "SRV-EVENT", "SRV-EVENT", "SRV-OTHER", "EVENT", "REQ", "RESTART"}).Draw(t, lab+"op")
+				op.Kind = rapid.SampledFrom([]string{"SRV-EVENT", "SRV-EVENT", "SRV-EVENT", "SRV-EVENT", "SRV-EVENT", "SRV-OTHER", "EVENT", "REQ", "CLOSE", "CLOSE", "RESTART"}).Draw(t, lab+"op")
 				op.ID = rapid.SampledFrom(evIDs).Draw(t, lab+"id")
+				if op.Kind == "CLOSE" || op.Kind == "REQ" {
+					// the subscription ids the deliveries are labelled with
+					op.ID = rapid.SampledFrom([]string{"s", "s2", "s3"}).Draw(t, lab+"subid")
+				}
 			}
 			sc = append(sc, op)
 		}
